@@ -266,7 +266,9 @@ impl Cx {
         if let Some(k) = self.only {
             return vec![k];
         }
-        (0..total).filter(|i| i % self.nshards == self.shard && *i >= self.start).collect()
+        // cases are dealt to the shards by a multiplicative hash, not by `case % nshards`: the drivers pick their families
+        // by `case % 8 / 12 / 16 / 32 / 64`, and a family living on one residue class would otherwise land on one shard
+        (0..total).filter(|i| (i.wrapping_mul(0x9E37_79B9_7F4A_7C15) >> 40) % self.nshards == self.shard && *i >= self.start).collect()
     }
     pub fn rng(&self, case: u64) -> Rng {
         Rng::for_case(self.seed, &self.prop, case)
